@@ -1107,6 +1107,9 @@ def mutate(r, p):
     return p[:i] + r.choice("()[]{}|*+?\\^$-,0129ipPIs{}:") + p[i:]
 
 
+CAP_INPUTS = [s for s in rxlib.strings_upto("abx", 4) if s] + ["aab", "aabb", "abab", "aaxab", "abxb", "aacab", "xaab"]
+
+
 def c05_streams(ctx):
     r = ctx.rnd
     gs = []
@@ -1144,6 +1147,18 @@ def c05_streams(ctx):
             s = rand_input(ctx, alpha, 7, "\n" if "m" in f else "")
             cs = [Case(p, f, "compile", ""), Case(p, f, "analyze", s), Case(p, f, "replace", s, "$1$2$3"), Case(p, f, "tokenize", s)]
             gs.append(Group(cs, {"features": features(ast), "input": s, "kind": "captures"}))
+    # quantified groups with a fixed-length body, abandoned after the group was recorded, next to later groups
+    # (capture snapshot / restore on failure; stale positions reaching analyze-string and the replacement)
+    xs, qs, ts = ["a", "b", "ab", "[ab]", "."], ["+", "*", "{2}", "{1,2}", "?", "{2,}"], ["x", "c", "$", "b"]
+    for i in range(ctx.scale(220, 3000)):
+        p1 = "(%s)%s%s" % (r.choice(xs), r.choice(qs), r.choice(ts))
+        p2 = "(%s)%s" % (r.choice(xs), r.choice(qs[:4] + ["+", "{2,}"]))
+        p = r.choice(["%s|%s", "(?:%s)?%s", "(?:%s|%s)", "(?:%s|b)%s", "%s|a%s", "(?:%s)*%s"]) % (p1, p2)
+        if r.random() < 0.3:
+            p = r.choice(["(?:%s)+", "c|%s", "%s|(c)+"]) % p
+        for s in r.sample(CAP_INPUTS, ctx.scale(6, 30)):
+            cs = [Case(p, "", "compile", ""), Case(p, "", "analyze", s), Case(p, "", "replace", s, "[$1|$2|$3]"), Case(p, "", "tokenize", s), Case(p, "", "is_match", s)]
+            gs.append(Group(cs, {"features": {"capture_in_rep", "capture_in_alt", "capture"}, "input": s, "kind": "quantified-groups"}))
     # nesting depth (stack exhaustion is explored, not modelled): moderate depths must work
     for depth in ([50, 200] if ctx.quick() else [50, 200, 1000]):
         p = "(" * depth + "a" + ")" * depth
